@@ -13,7 +13,7 @@ NAMES_PUNCT = ["", "~", "/", "~1", "~0", "a/b", "m~n", "#", "#a", "#0", "-", "a-
 NAMES_QUOTE = ["'", '"', "\\", "a\\", "\\'", '\\"', "a'b", 'a"b', "\\\\", "\\n", "\\u0041", "\\uD83D", "\\uD83D\\uDE00", "x\\udc00", "\\ud800\\n", "\\x41", "\\U0001F600", "\\/", "\\u{41}", "\\u{1F600}", "\\N{BULLET}", "\\8", "\\400"]
 NAMES_CTRL = ["\n", "\t", "\r", "\b", "\f", "\u0000", "\u001f", "\u007f", "a\nb"]
 NAMES_FORMAT = ["%", "%%", "%d", "%s", "100%", "%(a)s", "%%%", "{}", "{0}", "{a}", "{{", "}}", "\\1", "\\g<0>", "${a}", "$1", "%5B", "%27", "&amp;"]
-NAMES_UNI = ["not\u00edcias", "in\u00e9s", "nil\u00fcfer", "true\u00f1o", "or\u00e3o", "and\u00e9", "null\u00e9", "contains\u00e9", "false\u65e5", "\u200b", "\u200d", "\ufeff", "\u00ad", "\u202e", "a\u200bb", "\U000e0067", "\U0001f3f4\U000e0067\U000e0062", "\U0001d173", "\U000110bd", "e\u0301", "\u212b", "\u00c5", "A\u030a", "\ufb01", "fi", "\u00e9", "\u263a", "\u65e5\u672c", "\U0001f600", "a\U0001f600", "\u00e9\u00e9", "\u0661", "\ud7ff", "\uffff", "\ue000"]
+NAMES_UNI = ["a\u2028b", "\u2029", "\u2028", "x\u0085y", "\u00a0", "\u3000k", "not\u00edcias", "in\u00e9s", "nil\u00fcfer", "true\u00f1o", "or\u00e3o", "and\u00e9", "null\u00e9", "contains\u00e9", "false\u65e5", "\u200b", "\u200d", "\ufeff", "\u00ad", "\u202e", "a\u200bb", "\U000e0067", "\U0001f3f4\U000e0067\U000e0062", "\U0001d173", "\U000110bd", "e\u0301", "\u212b", "\u00c5", "A\u030a", "\ufb01", "fi", "\u00e9", "\u263a", "\u65e5\u672c", "\U0001f600", "a\U0001f600", "\u00e9\u00e9", "\u0661", "\ud7ff", "\uffff", "\ue000"]
 NAME_CLASSES = {
     "plain": NAMES_PLAIN, "reserved": NAMES_RESERVED, "digits": NAMES_DIGITS, "punct": NAMES_PUNCT,
     "quote": NAMES_QUOTE, "ctrl": NAMES_CTRL, "unicode": NAMES_UNI, "format": NAMES_FORMAT,
